@@ -160,6 +160,84 @@ type RunRecord struct {
 	WallMs  int64    `json:"wall_ms"`
 	Replay  string   `json:"replay,omitempty"`
 	OpsN    int      `json:"ops"`
+	// Starting marks the line a worker prints before executing a run, so the
+	// parent knows which plan was in flight if the process dies (a panic in a
+	// goroutine of the code under test cannot be recovered in-process).
+	Starting bool `json:"starting,omitempty"`
+}
+
+// crashSite extracts a stable signature from a Go crash dump.
+func crashSite(stderr string) string {
+	lines := strings.Split(stderr, "\n")
+	started := false
+	for _, l := range lines {
+		if strings.HasPrefix(l, "panic:") || strings.HasPrefix(l, "fatal error:") {
+			started = true
+			continue
+		}
+		if started && strings.HasPrefix(l, "github.com/MixinNetwork/mixin/") {
+			f := strings.TrimPrefix(l, "github.com/MixinNetwork/mixin/")
+			if j := strings.LastIndex(f, "("); j > 0 {
+				f = f[:j]
+			}
+			return f
+		}
+	}
+	return "unknown"
+}
+
+func isCrashDump(stderr string) bool {
+	return strings.Contains(stderr, "\npanic:") || strings.HasPrefix(stderr, "panic:") || strings.Contains(stderr, "fatal error:")
+}
+
+// ExecInChild runs one plan in a fresh process of this binary so that a
+// process-level crash of the code under test is observable.
+func ExecInChild(plan *Plan) (out *Outcome, crashed bool, stderr string) {
+	self, _ := os.Executable()
+	f, err := os.CreateTemp("", "verifplan-*.json")
+	if err != nil {
+		o := NewOutcome()
+		o.ToolError = err.Error()
+		return o, false, ""
+	}
+	defer os.Remove(f.Name())
+	json.NewEncoder(f).Encode(plan)
+	f.Close()
+	cmd := exec.Command(self, "execplan", "-file", f.Name())
+	cmd.Env = append(os.Environ(), "GOMAXPROCS=1")
+	var eb, ob strings.Builder
+	cmd.Stderr, cmd.Stdout = &eb, &ob
+	err = cmd.Run()
+	stderr = eb.String()
+	out = NewOutcome()
+	if jerr := json.Unmarshal([]byte(ob.String()), out); jerr == nil && err == nil {
+		return out, false, stderr
+	}
+	if isCrashDump(stderr) {
+		out.Violation = &Violation{Property: plan.Prop, Signature: "process-crash:" + crashSite(stderr), Detail: firstLines(stderr, 40)}
+		return out, true, stderr
+	}
+	out.ToolError = fmt.Sprintf("child failed: %v %s", err, firstLines(stderr, 5))
+	return out, false, stderr
+}
+
+// ExecPlanFile is the child side of ExecInChild.
+func ExecPlanFile(path string) int {
+	b, err := os.ReadFile(path)
+	if err != nil {
+		return 2
+	}
+	var plan Plan
+	if err := json.Unmarshal(b, &plan); err != nil {
+		return 2
+	}
+	prop := Lookup(plan.Prop)
+	if prop == nil {
+		return 2
+	}
+	out := execGuard(prop, &plan)
+	json.NewEncoder(os.Stdout).Encode(out)
+	return 0
 }
 
 func execGuard(prop *Property, p *Plan) (out *Outcome) {
@@ -198,6 +276,8 @@ func Worker(prop *Property, tier string, seed uint64, idx, of int, w *bufio.Writ
 			plan = prop.Gen(core.NewRng(runSeed), tier)
 		}
 		plan.Prop = prop.ID
+		enc.Encode(&RunRecord{Run: run, RunSeed: runSeed, Plan: plan, Starting: true})
+		w.Flush()
 		t0 := time.Now()
 		out := execGuard(prop, plan)
 		rec := &RunRecord{Run: run, RunSeed: runSeed, Out: out, WallMs: time.Since(t0).Milliseconds(), OpsN: len(plan.Ops)}
@@ -311,10 +391,17 @@ func Replay(path string) int {
 		fmt.Fprintln(os.Stderr, "unknown property", rf.Property)
 		return 2
 	}
-	out := execGuard(prop, rf.Plan)
+	rf.Plan.Prop = rf.Property
+	out, _, _ := ExecInChild(rf.Plan)
 	if out.ToolError != "" {
 		fmt.Fprintln(os.Stderr, "tool error:", out.ToolError)
 		return 2
+	}
+	if out.Violation != nil {
+		if k := LoadFindings(filepath.Join(filepath.Dir(filepath.Dir(path)), "known_findings.json")).Known(out.Violation.Property, out.Violation.Signature); k != nil {
+			fmt.Printf("KNOWN-FINDING: property=%s %s — %s\n", rf.Property, k.Signature, k.What)
+			return 0
+		}
 	}
 	if out.Violation == nil {
 		fmt.Printf("replay: no violation (digest %s)\n", out.Digest)
@@ -458,6 +545,8 @@ func Check(prop *Property, tier string, seed uint64, workers int, verifDir strin
 	var mu sync.Mutex
 	var records []*RunRecord
 	codes := make([]int, workers)
+	inflight := make([]*RunRecord, workers)
+	stderrs := make([]string, workers)
 	var wg sync.WaitGroup
 	for i := 0; i < workers; i++ {
 		wg.Add(1)
@@ -465,7 +554,9 @@ func Check(prop *Property, tier string, seed uint64, workers int, verifDir strin
 			defer wg.Done()
 			cmd := exec.Command(self, "worker", "-prop", prop.ID, "-tier", tier, "-seed", fmt.Sprint(seed),
 				"-idx", fmt.Sprint(i), "-of", fmt.Sprint(workers), "-verif", verifDir)
-			cmd.Stderr = os.Stderr
+			var eb strings.Builder
+			cmd.Stderr = &eb
+			defer func() { stderrs[i] = eb.String() }()
 			cmd.Env = append(os.Environ(), "GOMAXPROCS=1")
 			stdout, err := cmd.StdoutPipe()
 			if err != nil {
@@ -483,6 +574,12 @@ func Check(prop *Property, tier string, seed uint64, workers int, verifDir strin
 				if err := json.Unmarshal(sc.Bytes(), &rec); err != nil {
 					continue
 				}
+				if rec.Starting {
+					r := rec
+					inflight[i] = &r
+					continue
+				}
+				inflight[i] = nil
 				mu.Lock()
 				records = append(records, &rec)
 				mu.Unlock()
@@ -498,6 +595,37 @@ func Check(prop *Property, tier string, seed uint64, workers int, verifDir strin
 		}(i)
 	}
 	wg.Wait()
+	// a worker that died with a Go crash dump while a run was in flight: the
+	// code under test crashed the process (e.g. a panic in one of its own
+	// goroutines). Confirm in a fresh child, then report it as a violation.
+	crashFindings := LoadFindings(filepath.Join(verifDir, "known_findings.json"))
+	for i := 0; i < workers; i++ {
+		if codes[i] == 0 || codes[i] == 1 || inflight[i] == nil {
+			if codes[i] != 0 && codes[i] != 1 && stderrs[i] != "" {
+				fmt.Fprint(os.Stderr, firstLines(stderrs[i], 30), "\n")
+			}
+			continue
+		}
+		if !isCrashDump(stderrs[i]) {
+			fmt.Fprint(os.Stderr, firstLines(stderrs[i], 30), "\n")
+			continue
+		}
+		rec := inflight[i]
+		out, crashed, _ := ExecInChild(rec.Plan)
+		if !crashed {
+			fmt.Fprintf(os.Stderr, "worker %d crashed in run %d but the crash did not reproduce in a fresh process\n%s\n", i, rec.Run, firstLines(stderrs[i], 30))
+			continue
+		}
+		codes[i] = 1
+		rec.Out = out
+		if k := crashFindings.Known(out.Violation.Property, out.Violation.Signature); k != nil {
+			out.Known = append(out.Known, out.Violation.Signature)
+			out.Violation = nil
+		} else {
+			rec.Replay = WriteReplay(verifDir, prop.ID, rec.RunSeed, rec.Plan, out.Violation, out)
+		}
+		records = append(records, rec)
+	}
 	wall := time.Since(start).Seconds()
 	sort.Slice(records, func(i, j int) bool { return records[i].Run < records[j].Run })
 
